@@ -299,6 +299,10 @@ class Spinner:
             junk = self.get_junk()
             if junk:
                 raise StaleJunkError(junk)
+            # A Spinner may be used for several runs: forget the result of
+            # the previous one.
+            self._success = self._UNSET
+            self._failure = self._UNSET
             self._save_signals()
             self._timeout_call = self._reactor.callLater(
                 timeout, self._timed_out, function, timeout
